@@ -26,6 +26,7 @@ import (
 	"time"
 
 	"github.com/resonatehq/resonate/verif/sim/k"
+	_ "github.com/resonatehq/resonate/verif/sim/s"
 )
 
 func main() {
